@@ -25,7 +25,7 @@ ALLOW = [
     (r'.*', r'^filetime::set_file_handle_times\(Handle\(Base/Key\)\)$', 'escapes', 'atime re-touch after a successful open is best effort'),
     (r'.*', r'^std::fs::DirEntry::metadata\(Entry\(Temp\)\)$', 'escapes', 'per-file temp cleanup is best effort (races with the files\' owners)'),
     (r'.*', r'^std::fs::remove_file\(Temp/Listed\)$', 'escapes', 'per-file temp cleanup is best effort (races with the files\' owners)'),
-    (r'.*', r'^std::fs::metadata\(Temp\)$', 'escapes_without_mkdir', 'stat in ensure-directory falls through to create_dir_all, whose result is reported'),
+    (r'.*', r'^std::fs::(symlink_)?metadata\((Temp|Base|parent\(Base/Key\))\)$', 'escapes_without_mkdir', 'stat in ensure-directory falls through to create_dir_all, whose result is reported'),
     (r'^sharded::', r'^std::fs::metadata\(Dir\?/Leaf\?\[.*\]\)$', 'escapes', 'sharded existence probe is used as a boolean'),
     (r'^stack::', r'^write/read-side get$', 'reread', 're-read after ensure\'s put falls back to the pre-opened handle'),
     (r'.*', r'^filetime::set_file_atime\(Base/Key\)$', 'eexist_touch', 'touch after link-EEXIST: absence is benign'),
